@@ -55,7 +55,9 @@ class C16(ValCheck):
                  "observation-differential runs of generated JDF programs with seeded AGAIN bodies")
     rule = ("programs from all DAG templates plus parameter-space shapes (independent tasks, 1-4 parameters, dependent bounds: every "
             "instance is a startup task); AGAIN max 0..3 (seeded per instance); startup_iter in {1,2,3}, startup_chunk in {1,2,5,7}; "
-            "3 configurations scheduler[@ia]:threads:iter:chunk per program, schedulers rotated, threads 1,2,4,16; non-trivial = some "
+            "3 configurations scheduler[@ia]:threads:iter:chunk per program, schedulers rotated, threads 1,2,4,16, plus (every "
+            "parameter-space program, one DAG program in three) one configuration with 2 or 3 virtual processes (vpmap=hwloc on a "
+            "synthetic hwloc topology; classes are placed on D(first parameter) and the harness maps D(k) to VP k mod nb_vp); non-trivial = some "
             "instance defers at least once or some class has >= 3 startup instances; distinct = program text + again seed")
     trusted = ("tools/jdfgen.py, harness/ptg_driver.c + ptg_rt.h (seeded AGAIN, priority and startup-creation trace)",
                "checks/ptgval_common.py (SplitMix64 arithmetic of the harness recomputed by the oracle)")
@@ -81,6 +83,21 @@ class C16(ValCheck):
             out.append("%s%s:%d:%d:%d" % (s, m, nthreads[(i + j) % len(nthreads)], r.pick([1, 1, 2, 3]), r.pick([1, 1, 2, 5, 7])))
         return out
 
+    def vp_cfg(self, i, r):
+        """one configuration with 2 or 3 virtual processes; startup parameters that keep the generator going after a flush"""
+        s = SCHEDULERS[(5 * i + 1) % len(SCHEDULERS)]
+        it, ch = r.pick([(3, 7), (2, 5), (64, 256), (2, 2), (1, 5), (1, 1)])
+        return "%s%s@vp%d:-1:%d:%d" % (s, "@ia" if i % 2 else "", 2 + i % 2, it, ch)
+
+    @staticmethod
+    def spread(p):
+        """place every class on D(<first parameter>): with several virtual processes the harness' vpid_of sends
+        D(k) to VP k mod nb_vp, so consecutive instances go to different VPs (no effect with one VP)"""
+        for c in p.classes:
+            if c.params:
+                c.place = [jdfgen.L(c.params[0])]
+        return p
+
     def cases(self):
         r = self.rng
         n1, n2 = (9, 5) if self.tier == "quick" else (110, 50)
@@ -90,11 +107,14 @@ class C16(ValCheck):
         out = []
         ts = list(jdfgen.TEMPLATES)
         for i in range(n1):
-            p = jdfgen.gen_program(r, ts[i % len(ts)] if i < len(ts) else None, max_inst=60)
-            out.append("again %d:%d %s | %s" % (r.range(1, 10 ** 6), r.pick([1, 2, 3, 3]), " ".join(self.cfgs_for(i, r)), jdfgen.to_case(p)))
+            p = self.spread(jdfgen.gen_program(r, ts[i % len(ts)] if i < len(ts) else None, max_inst=60))
+            cf = self.cfgs_for(i, r) + ([self.vp_cfg(i, r)] if i % 3 == 0 else [])
+            out.append("again %d:%d %s | %s" % (r.range(1, 10 ** 6), r.pick([1, 2, 3, 3]), " ".join(cf), jdfgen.to_case(p)))
         for i in range(n2):
-            p = jdfgen.gen_program(r, "keys", max_inst=80, allow_derived_param=False, allow_permuted=False)
-            out.append("again %d:%d %s | %s" % (r.range(1, 10 ** 6), r.pick([0, 1, 2]), " ".join(self.cfgs_for(i + n1, r)), jdfgen.to_case(p)))
+            # independent tasks: every instance is a startup task; always one multi-VP configuration
+            p = self.spread(jdfgen.gen_program(r, "keys", max_inst=80, allow_derived_param=False, allow_permuted=False))
+            cf = self.cfgs_for(i + n1, r) + [self.vp_cfg(i + n1, r)]
+            out.append("again %d:%d %s | %s" % (r.range(1, 10 ** 6), r.pick([0, 1, 2]), " ".join(cf), jdfgen.to_case(p)))
         return out
 
     def search_cases(self):
@@ -102,7 +122,8 @@ class C16(ValCheck):
         out = []
         for i in range(6):
             p = jdfgen.gen_program(r, max_inst=60) if i % 2 else jdfgen.gen_program(r, "keys", max_inst=80, allow_derived_param=False, allow_permuted=False)
-            out.append("again %d:3 %s | %s" % (r.range(1, 10 ** 6), " ".join(self.cfgs_for(i + 50, r)), jdfgen.to_case(p)))
+            cf = self.cfgs_for(i + 50, r) + [self.vp_cfg(i + 50, r)]
+            out.append("again %d:3 %s | %s" % (r.range(1, 10 ** 6), " ".join(cf), jdfgen.to_case(self.spread(p))))
         return out
 
     def nontrivial_key(self, case):
@@ -236,7 +257,7 @@ class C16(ValCheck):
 
     def dist(self, cases):
         d = {"programs": len(cases), "again_max": {}, "startup_iter": {}, "startup_chunk": {}, "schedulers": {}, "threads": {},
-             "backends": {"ht": 0, "ia": 0}, "instances": 0, "deferring_instances": 0, "again_returns": 0, "startup_instances": 0,
+             "backends": {"ht": 0, "ia": 0}, "virtual_processes": {}, "instances": 0, "deferring_instances": 0, "again_returns": 0, "startup_instances": 0,
              "max_startup_per_class": 0}
         for c in cases:
             try:
@@ -249,6 +270,7 @@ class C16(ValCheck):
             for cf in hd.split()[2:]:
                 m, cfg = split_cfg(cf)
                 d["backends"][m] += 1
+                d["virtual_processes"][str(cfg["vp"] or 1)] = d["virtual_processes"].get(str(cfg["vp"] or 1), 0) + 1
                 d["schedulers"][cfg["sched"]] = d["schedulers"].get(cfg["sched"], 0) + 1
                 d["threads"][str(cfg["threads"])] = d["threads"].get(str(cfg["threads"]), 0) + 1
                 d["startup_iter"][str(cfg["iter"])] = d["startup_iter"].get(str(cfg["iter"]), 0) + 1
